@@ -1,7 +1,81 @@
-(** C08 — statements; see Proofs/ *)
-From Wasp Require Import Model.Base Model.DState.
-From stdpp Require Import list.
+(** C08 — Replicas converge regardless of delivery order, duplication and batching.
+    Statements only.  [abs_sess], [abs_subs], [abs_ret] give, for a replica, the entry it holds
+    under a session id / a (filter, session) pair / a retained topic (tombstones included);
+    what a node lists is the "added" part of it.  [merge_event] is MergeRemoteState/NotifyMsg. *)
+From Wasp Require Import Model.Base Spec.MatchSpec Model.DState Proofs.BaseFacts Proofs.Lww Proofs.DStateFacts.
+From stdpp Require Import list strings.
 Open Scope Z_scope.
-Theorem C08_placeholder_ts_max : ∀ la ld, la ≤ last_update la ld ∧ ld ≤ last_update la ld.
-Proof. intros la ld. unfold last_update. destruct (Z.ltb_spec ld la); lia. Qed.
-Print Assumptions C08_placeholder_ts_max.
+
+(** Each store is a last-writer-wins map: merging one update keeps, under the update's key,
+    whichever of the stored entry and the update has the strictly greater timestamp. *)
+Theorem sessions_merge_is_lww : ∀ l m k, abs_sess (merge_session l m) k = amerge1 m_sid sess_ts (abs_sess l) m k.
+Proof. exact merge_session_abs. Qed.
+Print Assumptions sessions_merge_is_lww.
+Theorem subscriptions_merge_is_lww : ∀ t u, subs_wf t →
+  subs_wf (sub_set t u) ∧ ∀ k, abs_subs (sub_set t u) k = amerge1 sub_key sub_ts (abs_subs t) u k.
+Proof. exact sub_set_abs. Qed.
+Print Assumptions subscriptions_merge_is_lww.
+Theorem retained_merge_is_lww : ∀ t r k,
+  abs_ret (merge_ret1 t r) k = if ret_eff r then amerge1 ret_key ret_ts (abs_ret t) r k else abs_ret t k.
+Proof. exact merge_ret1_abs. Qed.
+Print Assumptions retained_merge_is_lww.
+
+(** Two replicas that have received the same SET of updates - in any order, any number of
+    times, one at a time or batched ([es1], [es2] are arbitrary lists of messages) - hold the
+    same entry under every key, hence list the same sessions, subscriptions and retained
+    messages.  [tie_free]: updates of one key that share a timestamp are equal (the statement's
+    "the update with the greatest timestamp" presupposes it). *)
+Theorem merge_order_irrelevant : ∀ p1 p2 es1 es2,
+  Forall ev_valid es1 → Forall ev_valid es2 →
+  (∀ u, u ∈ all_sess es1 ↔ u ∈ all_sess es2) → tie_free m_sid sess_ts (all_sess es1) →
+  (∀ u, u ∈ all_subs es1 ↔ u ∈ all_subs es2) → tie_free sub_key sub_ts (all_subs es1) →
+  (∀ u, u ∈ all_ret es1 ↔ u ∈ all_ret es2) → tie_free ret_key ret_ts (all_ret es1) →
+  let d1 := fold_left merge_event es1 (dnew p1) in
+  let d2 := fold_left merge_event es2 (dnew p2) in
+  (∀ k, abs_sess (d_sess d1) k = abs_sess (d_sess d2) k) ∧
+  (∀ k, abs_subs (d_subs d1) k = abs_subs (d_subs d2) k) ∧
+  (∀ k, abs_ret (d_ret d1) k = abs_ret (d_ret d2) k).
+Proof. exact replicas_converge. Qed.
+Print Assumptions merge_order_irrelevant.
+
+(** The entry held under a key is the received update with the greatest timestamp. *)
+Theorem lww_value : ∀ p es, Forall ev_valid es →
+  tie_free m_sid sess_ts (all_sess es) → tie_free sub_key sub_ts (all_subs es) → tie_free ret_key ret_ts (all_ret es) →
+  let d := fold_left merge_event es (dnew p) in
+  (∀ k, match abs_sess (d_sess d) k with Some v => winner m_sid sess_ts (all_sess es) k v | None => ∀ v, v ∈ all_sess es → m_sid v ≠ k end) ∧
+  (∀ k, match abs_subs (d_subs d) k with Some v => winner sub_key sub_ts (all_subs es) k v | None => ∀ v, v ∈ all_subs es → sub_key v ≠ k end) ∧
+  (∀ k, match abs_ret (d_ret d) k with Some v => winner ret_key ret_ts (all_ret es) k v | None => ∀ v, v ∈ all_ret es → ret_key v ≠ k end).
+Proof. exact replica_holds_winner. Qed.
+Print Assumptions lww_value.
+
+(** An older (or equally old) update never overrides the stored entry nor resurrects a removed one. *)
+Theorem no_regression : ∀ (m : amap (K:=string) (V:=smeta)) u old, m (m_sid u) = Some old → sess_ts u ≤ sess_ts old →
+  ∀ k, amerge1 m_sid sess_ts m u k = m k.
+Proof. exact (amerge1_no_regression m_sid sess_ts). Qed.
+Print Assumptions no_regression.
+
+(** A local retained write is stamped above the entry it replaces, so that on its origin it has
+    exactly the effect of merging the update it broadcasts - whatever the offset between clocks. *)
+Theorem local_retained_write_is_merge : ∀ d p clk k, 0 < clk → p_topic p ≠ "" →
+  let r := ret_set d p clk in
+  ∃ e, r.2 = Some e ∧ abs_ret (d_ret r.1) k = abs_ret (d_ret (merge_event d e)) k.
+Proof. exact ret_set_is_merge. Qed.
+Print Assumptions local_retained_write_is_merge.
+Theorem local_subscription_write_is_merge : ∀ d sid pat qos clk, sid ≠ "" → pat ≠ "" →
+  let r := sub_create d sid pat qos clk in
+  ∃ e, r.2 = Some e ∧ d_subs r.1 = d_subs (merge_event d e) ∧ d_sess r.1 = d_sess (merge_event d e) ∧ d_ret r.1 = d_ret (merge_event d e).
+Proof. exact sub_create_is_merge. Qed.
+Print Assumptions local_subscription_write_is_merge.
+
+(** Without [tie_free] the claim is false of strict-< LWW (the first arrival of two different
+    updates with one timestamp wins): reported as a remark, the oracle skips tied keys. *)
+Example convergence_refuted_on_ties :
+  let u1 := SMeta "s" "c1" "mp" 1 None 10 0 in let u2 := SMeta "s" "c2" "mp" 2 None 10 0 in
+  abs_sess (merge_sessions_l [] [u1; u2]) "s" = Some u1 ∧ abs_sess (merge_sessions_l [] [u2; u1]) "s" = Some u2.
+Proof. vm_compute. done. Qed.
+(** non-vacuity *)
+Example c08_history :
+  let add := Sub "s1" "mp/a" 1 1 20 0 in let rm := Sub "s1" "mp/a" 1 0 0 30 in let old := Sub "s1" "mp/a" 1 2 10 0 in
+  sub_all (merge_event (merge_event (dnew 1) (BEvent [] [add; rm] [])) (BEvent [] [old] [])) = []
+  ∧ sub_all (merge_event (dnew 2) (BEvent [] [old; rm; add; old] [])) = [].
+Proof. vm_compute. done. Qed.
